@@ -335,7 +335,7 @@ fn gen_reader(t: &mut Tape, focus: Focus) -> Reader {
 pub fn gen_pair(tapes: &[Vec<u32>], focus: Focus) -> PairCase {
     let mut t = Tape::new(&tapes[0]);
     let mut ccfg = gen_cfg(&mut t, false);
-    let scfg = gen_cfg(&mut t, true);
+    let mut scfg = gen_cfg(&mut t, true);
     let push_ok = ccfg.enable_push != Some(false);
     let nreq = 1 + match t.weighted(&[4, 3, 1]) {
         0 => t.below(2),
@@ -438,6 +438,31 @@ pub fn gen_pair(tapes: &[Vec<u32>], focus: Focus) -> PairCase {
                 _ => ConnCmd::Ping,
             };
             ops.push(ConnOp { side, after_events: t.below(40), cmd, gap: 0 });
+        }
+    }
+    if focus != Focus::Faults && !reqs.is_empty() && t.chance(1, 8) {
+        // frame-size story: one side advertises a frame size above the default, later changes another setting (a second
+        // SETTINGS frame that does not mention the frame size), and only then receives bodies cut into large frames
+        let server = t.bool();
+        let big = *t.pick(&[20000u32, 65536, 1 << 20]);
+        {
+            let cfg = if server { &mut scfg } else { &mut ccfg };
+            cfg.max_frame = Some(big);
+            if cfg.initial_window.map(|w| w < 40000).unwrap_or(false) {
+                cfg.initial_window = None;
+            }
+        }
+        ops.retain(|o| !(matches!(o.cmd, ConnCmd::SetInitialWindow(_)) && (o.side == Side::Server) == server));
+        ops.push(ConnOp { side: if server { Side::Server } else { Side::Client }, after_events: t.below(8), cmd: ConnCmd::SetInitialWindow(*t.pick(&[65535u32, 65536, 100_000, 1 << 20])), gap: 0 });
+        let k = t.below(reqs.len());
+        let ch = Chunk { len: 17000 + t.below(40000), reserve: t.bool(), cuts: vec![], delay: 30 + t.below(60), hold: 0 };
+        if server {
+            reqs[k].method = "POST".into();
+            reqs[k].req.eos_on_head = false;
+            reqs[k].req.chunks.push(ch);
+        } else if reqs[k].method != "HEAD" && ![204u16, 304].contains(&reqs[k].status) {
+            reqs[k].resp.eos_on_head = false;
+            reqs[k].resp.chunks.push(ch);
         }
     }
     if t.chance(1, 5) {
